@@ -72,7 +72,8 @@ Lexemes(fam) ==
            \* U+012F (slash), U+015C (backslash), U+7329 (right parenthesis)
            P(1060), P(347), P(298), P(319), P(303), P(348), P(29481),
            \* white space and control characters: tab, no-break space, line separator, ideographic space
-           P(9), P(160), P(8232), P(12288)>>
+           P(9), P(160), P(8232), P(12288),
+           P(65279)>>     \* a byte order mark / zero-width no-break space (invisible: stripped by some readers)
     [] fam = "flags" ->   \* flag placement: before, inside and after branches, next to classes
          <<P(cA), P(cUA), FlagI, FlagNI, Open, Comma, Close, ROpen, R12, ClsA, P(49)>>   \* 1: a literal without case
     [] fam = "rng" ->   \* ranges whose bounds lie below, on and above the separator
